@@ -701,7 +701,7 @@ func (b *bitstream) readNsecs(length uint64) (int, bool, uint8, error) {
 		return 0, false, 0, err
 	}
 
-	if int64(d.scale)-9 < math.MinInt32 {
+	if d.scaleOf()-9 < -math.MaxInt32 {
 		// ShiftL would panic on an exponent this large; the fraction is far above 1 anyway.
 		msg := fmt.Sprintf("invalid timestamp fraction: %v", d)
 		return 0, false, 0, &SyntaxError{msg, b.pos}
